@@ -284,7 +284,7 @@ func genHistory(algos []string, maxPeers int, ops []string, maxOps int) *rapid.G
 			})
 		}
 		cs.Ops = rapid.SliceOfN(rapid.Custom(func(t *rapid.T) hOp {
-			return hOp{Op: rapid.SampledFrom(ops).Draw(t, "op"), A: rapid.IntRange(0, 7).Draw(t, "a"), Flag: rapid.Bool().Draw(t, "flag")}
+			return hOp{Op: rapid.SampledFrom(ops).Draw(t, "op"), A: rapid.IntRange(0, 7).Draw(t, "a"), B: rapid.IntRange(0, 3).Draw(t, "b"), Flag: rapid.Bool().Draw(t, "flag")}
 		}), 3, maxOps).Draw(t, "ops")
 		return cs
 	})
